@@ -68,6 +68,25 @@ def gen_schedule(rng, kind):
         for i in range(n):
             if i > 8 and rng.random() < (0.35 if kind == "requests" else 0.2):
                 steps[i]["msg"] = gen_msg(rng, sname, None)
+    if kind == "requests":       # pipelined requests: two readable before one update()
+        for i in range(9, n):
+            if "msg" in steps[i] and rng.random() < 0.3:
+                steps[i]["msg2"] = gen_msg(rng, sname, None)
+    if kind == "startup":        # requests of every kind while the start-up sequence runs (incl. the call that notices the timeout)
+        for i in range(n):
+            steps[i]["dt"] = rng.choice([50, 100, 200, 400])
+        for i in range(4, min(n, 40)):
+            if rng.random() < 0.6:
+                m = gen_msg(rng, sname, None)
+                if rng.random() < 0.5:
+                    m.update(topic=PREFIX + "/settings" + rng.choice(SETTINGS[sname]["internal"]), payload=[])
+                    m.pop("user", None)
+                steps[i]["msg"] = m
+        for i in range(40, n):
+            if rng.random() < 0.1:
+                steps[i]["drop"] = True
+            elif rng.random() < 0.3:
+                steps[i]["msg"] = gen_msg(rng, sname, None)
     if kind == "early":          # (retained) sets delivered between subscription and initial dump
         for i in range(6, min(n, 30)):
             if rng.random() < 0.3:
@@ -83,7 +102,11 @@ def gen_schedule(rng, kind):
                 steps[i]["drop"] = True
             elif r < 0.09:
                 steps[i]["session_present"] = rng.random() < 0.5
-            elif r < 0.11:
+            elif r < 0.10:
+                steps[i]["suback"] = False
+                if i + rng.choice([2, 30]) < n:
+                    steps[min(n - 1, i + rng.choice([2, 30]))]["suback"] = True
+            elif r < 0.12:
                 steps[i]["refuse_connect"] = True
                 if i + 3 < n:
                     steps[i + 3]["refuse_connect"] = False
@@ -123,11 +146,11 @@ def gen_schedule(rng, kind):
     return sched
 
 
-KINDS = ["normal", "requests", "early", "faults", "backpressure", "api", "oversize"]
+KINDS = ["normal", "requests", "early", "faults", "backpressure", "api", "oversize", "startup"]
 
 
 def schedules_for(rng, tier):
-    n = 70 if tier == "quick" else 1200
+    n = 80 if tier == "quick" else 1200
     return [gen_schedule(random.Random(rng.getrandbits(64)), KINDS[i % len(KINDS)]) for i in range(n)]
 
 
@@ -159,7 +182,7 @@ def pub_packets(step):
     outs = []
     for p in step.get("packets", []):
         if p["t"] == "sub":
-            outs.append([0])
+            outs.append([0, b2l(p["filter"]), p["nolocal"]])
         elif p["t"] == "pub" and not p["dup"]:
             code = [v for k, v in p["props"]["user"] if k == "code"]
             outs.append([1, b2l(p["topic"]), p["payload"], p["retain"], CODE_ID.get(code[0], 9) if code else -1,
@@ -254,6 +277,12 @@ def build_envs(sched, res):
                             if p["topic"] != prefix + "/alive")
             quiet_state = b["state"] in ("Wait", "Init", "Single", "Connect") and st_in.get("api") is None
             reply_ok = True
+            # outside the property's precondition (buffers hold one maximal response with a <=128 byte topic):
+            # whether minimq can serialize the response is its verdict, observed
+            big = len(m.get("resp", "")) > 128 or sched.get("buffer", 4096) < 2048
+            starts_multipart = "internal" in orc and b["state"] == "Single" and len(m.get("resp", "")) <= 128 and len(m.get("cd", [])) <= 32
+            if big and not starts_multipart:
+                reply_ok = any(p["topic"] == m.get("resp", topic) for p in pubs)
             if not (b["can_publish"] and quiet_state):
                 accepted = "(Some %d%%nat)" % len(pubs)
             poll = "(Msg {| m_settings := %s; m_empty := %s; m_resp := %s; m_cd := %s; m_ans := %s; m_reply_ok := %s |})" % (
